@@ -21,6 +21,7 @@ Harness side
 The EventMgr run loop / watches / threads are never started; the methods the
 watch callbacks call are invoked directly.
 """
+from mc import modstate  # noqa: E402
 import collections
 import errno
 import io
@@ -468,6 +469,7 @@ class World:
     """One node: temp root, EventMgr, fake ZK."""
 
     def __init__(self):
+        modstate.reset()    # module-level memos do not leak between cases
         self.root = tempfile.mkdtemp(prefix='node-', dir=RUN_ROOT['dir'])
         self.cache_dir = os.path.join(self.root, 'cache')
         os.makedirs(self.cache_dir)
@@ -588,6 +590,9 @@ class World:
         self.fd_paths = {}
         self.intended = {}
         self.intended_by_path = {}
+        # one agent process per case (whatever the manager object remembers
+        # must not leak from one case into the next)
+        self.mgr = self.new_mgr()
         tree = fakezk.Tree(clock_ms=lambda: self.zk_ms)
         zk = tree.client()
         self.zk_ms = int((T_PLACE - 10000) * 1000)
@@ -612,6 +617,21 @@ class World:
         self.zk = zk
         self.write_dir(files, ctimes)
         return files
+
+    def retarget(self, slots2, when):
+        """ZooKeeper moves on while the agent runs: per slot the manifest /
+        placement node is (re)created or removed as (man, plc) say."""
+        self.zk_ms = int(when * 1000)
+        for i, (_exp, man, plc) in enumerate(slots2):
+            for path, want, data in (
+                    (z.path.scheduled(SLOTS[i]), man,
+                     manifest(i, man) if man else None),
+                    (z.path.placement(HOST, SLOTS[i]), plc,
+                     placement_data(i, plc) if plc else None)):
+                if self.zk.exists(path):
+                    self.zk.delete(path)
+                if want:
+                    zkutils.put(self.zk, path, data)
 
     # running ---------------------------------------------------------------
     def sync(self, expected, check_existing, fault=None, when=T_SYNC,
@@ -847,7 +867,7 @@ def run_startup_case(world, case):
             raise
         out.append(_v('startup-raised', site,
                       {'error': '%s: %s' % (type(exc).__name__,
-                                            str(exc)[:160])}))
+                                            str(exc).replace(world.root, '<root>')[:160])}))
         return out, {'steps': world.steps.n, 'outcome': 'raised'}
     stats['startups'] += 1
     stats['startup_syncs'] += len(calls)
@@ -869,10 +889,64 @@ def run_startup_case(world, case):
     return out, info
 
 
+T_SECOND = vclock.BASE + 2500.0         # a later placement event
+
+
+def run_two_case(world, case):
+    """Two synchronisations by ONE agent process: the first as in
+    run_case (check_existing as given), then ZooKeeper and the placement
+    list move on to case['slots2'] = [(listed, man, plc), ...] and the watch
+    callback synchronises again (check_existing=False).  The
+    post-conditions of the statement are judged after the second one."""
+    out = []
+    stats = world.stats
+    prior_files = world.setup(case)
+    exp1 = [SLOTS[i] for i, cfg in enumerate(case['slots']) if cfg[1]]
+    try:
+        outcome, _f = world.sync(exp1, case['check'], None)
+        if outcome != 'ok':
+            raise HarnessError('first sync outcome %r' % outcome)
+        files1 = {n: d for n, d in world.read_dir().items()
+                  if not n.startswith('.')}
+        world.retarget(case['slots2'], T_SECOND - 1.0)
+        exp2 = [SLOTS[i] for i, cfg in enumerate(case['slots2']) if cfg[0]]
+        outcome, _f = world.sync(exp2, False, None, when=T_SECOND)
+        if outcome != 'ok':
+            raise HarnessError('second sync outcome %r' % outcome)
+    except Exception as exc:  # pylint: disable=broad-except
+        site = _exc_site(exc)
+        if site == 'harness' or isinstance(exc, HarnessError):
+            raise
+        out.append(_v('synchronize-raised', site,
+                      {'error': '%s: %s' % (type(exc).__name__,
+                                            str(exc).replace(world.root, '<root>')[:160])}))
+        return out, {'steps': world.steps.n, 'outcome': 'raised'}
+    stats['second_syncs'] += 1
+    case2 = {'slots': [['X'] + list(c) for c in case['slots2']],
+             'check': False}
+    files = world.read_dir()
+    where = 'after a second sync by the same agent'
+    check_synced(case2, files, world.steps.written, where, out, stats)
+    allowed = allowed_docs(case, prior_files)
+    for name, docs in allowed_docs(case2, files1).items():
+        allowed.setdefault(name, [])
+        allowed[name] = allowed[name] + docs
+    check_visible(files, allowed, where, 'fs.write_safe', out, stats,
+                  world.intended)
+    if any(c[0] and c[1] and c[2] and SLOTS[i] not in files1
+           for i, c in enumerate(case['slots2'])):
+        stats['second_sync_had_to_add_a_file'] += 1
+    return out, {'steps': world.steps.n, 'outcome': 'ok',
+                 'written': sorted(world.steps.written),
+                 'trace': list(world.steps.trace)}
+
+
 def run_case(world, case, fault=None):
     """-> (violations, info).  `fault` = None | [flavour, k, torn]."""
     if case.get('startup'):
         return run_startup_case(world, case)
+    if case.get('slots2') is not None:
+        return run_two_case(world, case)
     out = []
     stats = world.stats
     prior_files = world.setup(case)
@@ -889,7 +963,7 @@ def run_case(world, case, fault=None):
             raise
         out.append(_v('synchronize-raised', site,
                       {'error': '%s: %s' % (type(exc).__name__,
-                                            str(exc)[:160])}))
+                                            str(exc).replace(world.root, '<root>')[:160])}))
         return out, {'steps': world.steps.n, 'outcome': 'raised'}
     info['steps'] = world.steps.n
     info['trace'] = list(world.steps.trace)
@@ -936,7 +1010,7 @@ def run_case(world, case, fault=None):
         out.append(_v('resync-after-fault-raised', s2,
                       {'fault_at': [op, kind],
                        'error': '%s: %s' % (type(exc).__name__,
-                                            str(exc)[:160])}))
+                                            str(exc).replace(world.root, '<root>')[:160])}))
         return out, info
     if outcome2 != 'ok':
         raise HarnessError('recovery sync outcome %r' % outcome2)
